@@ -27,7 +27,7 @@ CHECKS = {
          "Every fault class of the statement is planted at every site of every generated base design (top or deep; scalar, bus, slice, concat, port-reference, bundle, anonymous-bundle, array, pair connections); each mutant runs in a pristine process and elaborate, to_proto, netlist and two retries must never return.",
          "Ill-formedness is decided by the reference interpreter's typing rules; out-of-range slice *bounds* are not planted (C03 permits Python clamping); base designs are sampled, mutants per base enumerated (capped at 160, cap hits counted)."),
  "C03": ("exploration", "exhaustive enumeration of a bounded index box plus Hypothesis-generated nested parents; oracle = Python list indexing",
-         "Every index of the bounded box on a Signal parent (complete) and sampled indices on nested slice/concat/port-reference/bundle-reference parents are built, width-queried, connected, elaborated and exported; acceptance, reported width and the exported bit sequence are compared with Python's own list indexing.",
+         "Every index of the bounded box on a Signal parent (complete) and sampled indices on nested slice/concat/port-reference (plain instances and broadcast-connected instance arrays)/bundle-reference parents are built, width-queried (for port references also before use), connected, elaborated and exported - also after trial indices and neighbouring spellings of the index were tried on the same parent; acceptance, reported width and the exported bit sequence are compared with Python's own list indexing. Concatenations of whole signals resized after (or before) their width was read must report and export the list concatenation of their parts as they are then.",
          "Trusts Python list slicing and the package reader; nested parents sampled; acceptance is only required where the statement requires it."),
  "C04": ("exploration", "history-based property testing: generated interleaved connect/replace/disconnect histories per module, model of the final mapping as oracle (isomorphism), step-wise Instance.conns agreement, metamorphic comparison with the history-free design",
          "Every module of a generated design is given an interleaved operation history in which each port is first tied to 0-3 other connectables of any kind, possibly disconnected or replace()d, and finally to its real connection; Instance.conns must equal the running mapping after every step, the exported package must be isomorphic to the reference interpreter's circuit of the final mapping, and a history must not make a design un-elaboratable that elaborates when written directly.",
